@@ -387,13 +387,80 @@ def scorer_total(ck, rule):
 
 
 # ------------------------------------------------------------------------------------------------------------ C04.2
-def ownership(ck, rows=True):
+def ownership(ck, rows=True, create_callers=None):
+    """create_callers: class names; when given, create() is judged as those classes call it - a path of create that needs an optional
+    argument (default None) none of their call sites passes is not a path of theirs (C13 borrows the rule for the segment builder:
+    a precomputed score handed over by the conflict resolver is C04's and C15's concern, not C13's)."""
     ctx = ck.ctx
     p = ctx.p
     seg = p.find_class("AlignmentSegment")
     create = p.lookup_method(seg, "create", None)
     if create is None:
         raise AnalysisError("AlignmentSegment.create not found")
+    never_passed = never_passed_params(ck, create, create_callers)
+    return _ownership(ck, rows, seg, create, never_passed)
+
+
+def never_passed_params(ck, create, create_callers):
+    """parameters of `create` that no call site inside the named classes passes (positionally, by keyword or through * / **)"""
+    ctx = ck.ctx
+    never_passed = []
+    if create_callers:
+        cparams = [pp.name for pp in create.call_params()]
+        passed = set()
+        n_sites = 0
+        for site in ctx.cg.sites_calling(create):
+            cls = getattr(site.caller, "cls", None)
+            if cls is None or cls.name not in create_callers:
+                continue
+            n_sites += 1
+            if any(isinstance(a, ast.Starred) for a in site.node.args) or any(k.arg is None for k in site.node.keywords):
+                passed.update(cparams)
+            passed.update(cparams[:len(site.node.args)])
+            passed.update(k.arg for k in site.node.keywords if k.arg)
+        if not n_sites:
+            raise AnalysisError(f"{create.where}: no call of AlignmentSegment.create from {create_callers}")
+        never_passed = [V(n) for n in cparams if n not in passed]
+    return never_passed
+
+
+def assume_absent(assumptions, never_passed):
+    """The assumptions of a path, read with the never-passed optional parameters at their default None: `x is None` holds,
+    `x is not None` does not, and / or / not are folded. None when the path cannot be taken then."""
+    def fold(c):
+        if c[0] == "isnone" and c[1] in never_passed:
+            return C(True)
+        if c[0] == "notnone" and c[1] in never_passed:
+            return C(False)
+        if c[0] == "not":
+            inner = fold(c[1])
+            if inner in (C(True), C(False)):
+                return C(inner == C(False))
+            return ("not", inner)
+        if c[0] in ("and", "or"):
+            parts = [fold(x) for x in c[1]]
+            absorbing, neutral = (C(False), C(True)) if c[0] == "and" else (C(True), C(False))
+            if absorbing in parts:
+                return absorbing
+            parts = [x for x in parts if x != neutral]
+            if not parts:
+                return neutral
+            return parts[0] if len(parts) == 1 else (c[0], tuple(parts))
+        return c
+    out = []
+    for c, tv, node in assumptions:
+        f = fold(c) if never_passed else c
+        if f in (C(True), C(False)):
+            if (f == C(True)) != bool(tv):
+                return None
+            continue
+        out.append((f, tv, node))
+    return out
+
+
+def _ownership(ck, rows, seg, create, never_passed):
+    ctx = ck.ctx
+    p = ctx.p
     # (a) raw constructor sites
     raw = ctx.cg.sites_constructing(seg)
     n_raw = 0
@@ -411,6 +478,8 @@ def ownership(ck, rows=True):
     for pa in explore(ck, create):
         if pa.outcome != "return":
             continue
+        if assume_absent(pa.state.assumptions, never_passed) is None:
+            continue                # needs an optional argument the judged callers never pass
         for x in T.subterms(pa.value):
             if x[0] == "new" and x[1] == seg.qualname:
                 a = dict(x[2])
